@@ -1000,3 +1000,296 @@ def gen_edit(rng, d, comp, kinds=None):
         cur = r['kind'][END_INDEX[r['kind'][0]][sel]][1 if k == 'mult' else 2]
         return [k, r['id'], sel, (not cur) if rng.random() < 0.8 else cur]
     return None
+
+
+# --------------------------------------------------------------------------- C20: XSD specification, trees, edits
+
+CORE_XS = {'boolean': 'xs:boolean', 'integer': 'xs:integer', 'real': 'xs:decimal', 'string': 'xs:string',
+           'unique_id': 'xs:integer'}
+XS_NS = 'http://www.w3.org/2001/XMLSchema'
+
+
+def py_type_name(d, dt):
+    """name under which a data type can be used as a base: core 1..5, enumerations, user types"""
+    t = _find(d['dts'], 'id', dt)
+    if t is None:
+        return None
+    k = t['kind']
+    if k[0] == 'core':
+        return t['name'] if 1 <= k[1] <= 5 else None
+    return t['name'] if k[0] in ('enum', 'user') else None
+
+
+def py_base_type_name(d, dt):
+    """name of the data type at the end of the chain of user types, if it is core 1..5 or an enumeration"""
+    for _ in range(len(d['dts']) + 2):
+        t = _find(d['dts'], 'id', dt)
+        if t is None:
+            return None
+        k = t['kind']
+        if k[0] == 'user':
+            dt = k[1]
+            continue
+        if k[0] == 'core':
+            return t['name'] if 1 <= k[1] <= 5 else None
+        return t['name'] if k[0] == 'enum' else None
+    return None
+
+
+def _node(tag, attrs, children):
+    return [tag, sorted([k, v] for k, v in attrs), children]
+
+
+def py_xsd(d, comp):
+    """the XSD tree for component id `comp`, canonical (see canon_xml)"""
+    types = []
+    for scope in (lambda t: py_global(d, t['parent']), lambda t: py_contained(d, comp, t['parent'])):
+        for t in d['dts']:
+            if not scope(t):
+                continue
+            k = t['kind']
+            if k[0] == 'core':
+                base = CORE_XS.get(t['name'])
+                if base:
+                    types.append(_node('xs:simpleType', [('name', t['name'])], [_node('xs:restriction', [('base', base)], [])]))
+            elif k[0] == 'enum':
+                types.append(_node('xs:simpleType', [('name', t['name'])], [
+                    _node('xs:restriction', [('base', 'xs:string')],
+                          [_node('xs:enumeration', [('value', v)], []) for v in k[1:]])]))
+            elif k[0] == 'user':
+                base = py_type_name(d, k[1])
+                if base:
+                    types.append(_node('xs:simpleType', [('name', t['name'])], [_node('xs:restriction', [('base', base)], [])]))
+    classes = []
+    for c in d['classes']:
+        if not py_contained(d, comp, c['parent']):
+            continue
+        attrs = []
+        for a in c['attrs']:
+            if a['kind'][0] == 'derived':
+                continue
+            dt = py_attr_dt(d, a)
+            ty = py_base_type_name(d, dt) if dt is not None else None
+            if ty:
+                attrs.append(_node('xs:attribute', [('name', a['name']), ('type', ty)], []))
+        classes.append(_node('xs:element', [('name', c['kl']), ('minOccurs', '0'), ('maxOccurs', 'unbounded')],
+                             [_node('xs:complexType', [], attrs)]))
+    name = next((k['name'] for k in d['containers'] if k['comp'] and k['id'] == comp), '')
+    component = _node('xs:element', [('name', name)], [_node('xs:complexType', [], [_node('xs:sequence', [], classes)])])
+    return canon_xml(_node('xs:schema', [('xmlns:xs', XS_NS)], types + [component]))
+
+
+def canon_xml(t):
+    """attributes sorted; children sorted where the generator iterates over unordered row sets (the types
+    and the component under xs:schema, the classes under xs:sequence, the attributes under xs:complexType);
+    the enumerators under xs:restriction keep their order"""
+    import json
+    tag, attrs, children = t
+    children = [canon_xml(c) for c in children]
+    if tag in ('xs:schema', 'xs:sequence', 'xs:complexType'):
+        children = sorted(children, key=lambda c: json.dumps(c, sort_keys=True))
+    return [tag, sorted([str(k), str(v)] for k, v in attrs), children]
+
+
+def tree_of_element(el):
+    """xml.etree element (as built by build_schema) -> tree"""
+    return [el.tag, [[k, v] for k, v in el.attrib.items()], [tree_of_element(c) for c in el]]
+
+
+def tree_of_etree_parsed(el):
+    """element parsed back by ElementTree (namespaces expanded) -> tree in the xs: spelling"""
+    def tag(t):
+        return 'xs:' + t[len(XS_NS) + 2:] if t.startswith('{%s}' % XS_NS) else t
+    def conv(e, root):
+        attrs = [[k, v] for k, v in e.attrib.items()]
+        if root:
+            attrs.append(['xmlns:xs', XS_NS])
+        return [tag(e.tag), attrs, [conv(c, False) for c in e]]
+    return conv(el, True)
+
+
+def tree_of_minidom(node):
+    attrs = [[node.attributes.item(i).name, node.attributes.item(i).value] for i in range(node.attributes.length)]
+    return [node.nodeName, attrs, [tree_of_minidom(c) for c in node.childNodes if c.nodeType == c.ELEMENT_NODE]]
+
+
+def tree_of_sexp(s):
+    return [s[0], [[k, v] for k, v in s[1]], [tree_of_sexp(c) for c in s[2]]]
+
+
+#   XSD edits:  ['rename', cls, attr, new] ['retype', cls, attr, dt] ['add-attr', cls, ATTR]
+#               ['add-enum', dt, name, new enum id] ['perm-enums', dt, [positions]]
+#               ['add-type', DT] ['move-class', cls, P]
+
+def xedit_sexp(e):
+    k = e[0]
+    if k in ('rename', 'retype', 'move-class'):
+        return edit_sexp(e)
+    if k == 'add-attr':
+        a = e[2]
+        return [Sym(k), e[1], [a['id'], a['name'], [Sym(a['kind'][0])] + list(a['kind'][1:])]]
+    if k == 'add-enum':
+        return [Sym(k), e[1], e[2]]
+    if k == 'perm-enums':
+        return [Sym(k), e[1], list(e[2])]
+    if k == 'add-type':
+        t = e[1]
+        return [Sym(k), [t['id'], t['name'], [Sym('user'), t['kind'][1]], _p_sexp(t['parent'])]]
+    raise ValueError(k)
+
+
+def py_apply_xedit(d, e):
+    import copy
+    k = e[0]
+    if k in ('rename', 'retype', 'move-class'):
+        return py_apply_edit(d, e)
+    d = copy.deepcopy(d)
+    if k == 'add-attr':
+        for c in d['classes']:
+            if c['id'] == e[1]:
+                c['attrs'].append(copy.deepcopy(e[2]))
+    elif k == 'add-enum':
+        for t in d['dts']:
+            if t['id'] == e[1] and t['kind'][0] == 'enum':
+                t['kind'] = list(t['kind']) + [e[2]]
+    elif k == 'perm-enums':
+        for t in d['dts']:
+            if t['id'] == e[1] and t['kind'][0] == 'enum':
+                es = t['kind'][1:]
+                t['kind'] = ['enum'] + [es[i] for i in e[2] if 0 <= i < len(es)]
+    elif k == 'add-type':
+        d['dts'].append(copy.deepcopy(e[1]))
+    else:
+        raise ValueError(k)
+    return d
+
+
+def pop_apply_xedit(m, e):
+    import xtuml
+    from xtuml import navigate_one as one, navigate_many as many, where_eq as where
+    k = e[0]
+    if k in ('rename', 'retype', 'move-class'):
+        return pop_apply_edit(m, e)
+    if k == 'add-attr':
+        # rows are created with their own (non-referential) values and then related explicitly
+        cls, a = e[1], e[2]
+        o_obj = m.select_any('O_OBJ', where(Obj_ID=cls))
+        last = one(o_obj).O_ATTR[102](lambda s: not one(s).O_ATTR[103, 'precedes']())
+        kind = a['kind']
+        dt = kind[1] if kind[0] in ('base', 'derived') else SAME_AS
+        o_attr = m.new('O_ATTR', Attr_ID=a['id'], Name=a['name'], Descrip='', Prefix='', Root_Nam=a['name'],
+                       Pfx_Mode=0, Dimensions='', DefaultValue='')
+        xtuml.relate(o_attr, o_obj, 102)
+        if last is not None:
+            xtuml.relate(last, o_attr, 103, 'precedes')
+        s_dt = m.select_any('S_DT', where(DT_ID=dt))
+        if s_dt is not None:
+            xtuml.relate(o_attr, s_dt, 114)
+        if kind[0] == 'ref':
+            o_rattr = m.new('O_RATTR', Ref_Mode=1, BaseAttrName='')
+            xtuml.relate(o_rattr, o_attr, 106)
+            o_battr = m.select_any('O_BATTR', where(Attr_ID=kind[2], Obj_ID=kind[1]))
+            if o_battr is not None:
+                xtuml.relate(o_rattr, o_battr, 113)
+        else:
+            o_battr = m.new('O_BATTR')
+            xtuml.relate(o_battr, o_attr, 106)
+            if kind[0] == 'base':
+                xtuml.relate(m.new('O_NBATTR'), o_battr, 107)
+            else:
+                xtuml.relate(m.new('O_DBATTR', Action_Semantics_internal='', Suc_Pars=0, Dialect=0), o_battr, 107)
+    elif k == 'add-enum':
+        s_edt = m.select_any('S_EDT', where(DT_ID=e[1]))
+        last = xtuml.navigate_any(s_edt).S_ENUM[27](lambda s: not one(s).S_ENUM[56, 'precedes']())
+        s_enum = m.new('S_ENUM', Enum_ID=e[3], Name=e[2], Descrip='')
+        xtuml.relate(s_enum, s_edt, 27)
+        if last is not None:
+            xtuml.relate(last, s_enum, 56, 'precedes')
+    elif k == 'perm-enums':
+        s_edt = m.select_any('S_EDT', where(DT_ID=e[1]))
+        order = []
+        cur = xtuml.navigate_any(s_edt).S_ENUM[27](lambda s: not one(s).S_ENUM[56, 'succeeds']())
+        while cur is not None:
+            order.append(cur)
+            cur = one(cur).S_ENUM[56, 'precedes']()
+        for a, b in zip(order, order[1:]):
+            xtuml.unrelate(a, b, 56, 'precedes')
+        new = [order[i] for i in e[2]]
+        for a, b in zip(new, new[1:]):
+            xtuml.relate(a, b, 56, 'precedes')
+    elif k == 'add-type':
+        t = e[1]
+        pe = m.new('PE_PE', Element_ID=t['id'], Visibility=1, type=3)
+        if t['parent']:
+            if t['parent'][0] == 'pkg':
+                xtuml.relate(pe, m.select_any('EP_PKG', where(Package_ID=t['parent'][1])), 8000)
+            else:
+                xtuml.relate(pe, m.select_any('C_C', where(Id=t['parent'][1])), 8003)
+        s_dt = m.new('S_DT', Name=t['name'], Descrip='', DefaultValue='')
+        xtuml.relate(s_dt, pe, 8001)
+        s_udt = m.new('S_UDT', Gen_Type=0, Definition='')
+        xtuml.relate(s_udt, s_dt, 17)
+        base = m.select_any('S_DT', where(DT_ID=t['kind'][1]))
+        if base is not None:
+            xtuml.relate(s_udt, base, 18)
+    else:
+        raise ValueError(k)
+
+
+def gen_xedit(rng, d, fresh):
+    """one random XSD-relevant edit applicable to `d`; `fresh()` yields unused identifiers"""
+    for _ in range(20):
+        k = rng.choice(['rename', 'retype', 'add-attr', 'add-attr', 'add-enum', 'perm-enums', 'add-type', 'move-class'])
+        if k in ('rename', 'move-class'):
+            e = gen_edit(rng, d, None, [k])
+            if e is not None:
+                return e
+        elif k == 'retype':
+            cands = [(c, a) for c in d['classes'] for a in c['attrs']
+                     if a['kind'][0] != 'ref' and py_base_type_name(d, a['kind'][1])]
+            sup = [t for t in d['dts'] if py_base_type_name(d, t['id'])]
+            if cands and sup:
+                c, a = rng.choice(cands)
+                return ['retype', c['id'], a['id'], rng.choice(sup)['id']]
+        elif k == 'add-attr' and d['classes']:
+            c = rng.choice(d['classes'])
+            used = {x['name'].upper() for x in c['attrs']}
+            name = rng.choice(WORDS) + '_new%d' % rng.randint(1, 99)
+            if name.upper() in used:
+                continue
+            r = rng.random()
+            bases = [(k2['id'], x['id']) for k2 in d['classes'] for x in k2['attrs'] if x['kind'][0] != 'ref']
+            if r < 0.2 and bases:
+                b = rng.choice(bases)
+                kind = ['ref', b[0], b[1]]
+            elif r < 0.35:
+                kind = ['derived', rng.choice(d['dts'])['id']]
+            else:
+                kind = ['base', rng.choice(d['dts'])['id']]
+            return ['add-attr', c['id'], {'id': fresh(), 'name': name, 'kind': kind}]
+        elif k in ('add-enum', 'perm-enums'):
+            enums = [t for t in d['dts'] if t['kind'][0] == 'enum']
+            if not enums:
+                continue
+            t = rng.choice(enums)
+            if k == 'add-enum':
+                name = 'Added_%d' % rng.randint(1, 999)
+                if name in t['kind'][1:]:
+                    continue
+                return ['add-enum', t['id'], name, fresh()]
+            n = len(t['kind']) - 1
+            if n < 2:
+                continue
+            perm = list(range(n))
+            rng.shuffle(perm)
+            return ['perm-enums', t['id'], perm]
+        elif k == 'add-type':
+            base = rng.choice(d['dts'])
+            names = {t['name'] for t in d['dts']}
+            name = 'NewType_%d' % rng.randint(1, 999)
+            if name in names:
+                continue
+            p = rng.choice(d['containers'] + [None])
+            return ['add-type', {'id': fresh(), 'name': name, 'kind': ['user', base['id']], 'predef': False,
+                                 'parent': None if p is None else ['comp' if p['comp'] else 'pkg', p['id']]}]
+    return None
